@@ -12,12 +12,19 @@ pub enum FixedStrError {
 }
 
 /// Fixed size string to bytes.
+///
+/// The stored form is NUL-terminated, so the name must be shorter than `MAX_LEN`
+/// and must not contain NUL characters; otherwise it could not be read back by
+/// [`bytes_to_fixed_str`].
 pub fn fixed_str_to_bytes<const MAX_LEN: usize>(
     name: &str,
 ) -> Result<[u8; MAX_LEN], FixedStrError> {
     let bytes = name.as_bytes();
-    if bytes.len() > MAX_LEN {
+    if bytes.len() >= MAX_LEN {
         return Err(FixedStrError::ExceedMaxLengthLimit);
+    }
+    if bytes.contains(&0) {
+        return Err(FixedStrError::InvalidFormat);
     }
     let mut buffer = [0; MAX_LEN];
     buffer[..bytes.len()].copy_from_slice(bytes);
